@@ -148,7 +148,7 @@ func (s *scopedWalker) walkFn(path string, d fs.DirEntry, err error) error {
 	}
 	// st.logger.Printf("flags for %q: %v", name, flags)
 
-	if s.excl.matches(name) {
+	if s.excl.matches(name, info.Mode().IsDir()) {
 		if !info.Mode().IsDir() {
 			// Returning SkipDir for a non-directory makes fs.WalkDir skip
 			// the remaining entries of the containing directory.
